@@ -6,7 +6,7 @@ from ..link import run_e3, gen_events
 ID = "C09"
 LEVEL = "exploration"
 ENGINE = "E3"
-QUICK_RUNS = 26000
+QUICK_RUNS = 22000
 THOROUGH_RUNS = 3000000
 QUICK_WALL = 100
 THOROUGH_WALL = 900
